@@ -49,6 +49,97 @@ def framesOf (op : OpRec) : List (Bytes × Spec.Request) :=
 def viol (s : JSt) (sig : String) (op : OpRec) (details : String) : JSt :=
   { s with out := s.out ++ [s!"{sig} | op {op.idx} `{" ".intercalate (op.toks.take 1)}`: {details}"] }
 
+/-! ### shared: ground truth of an operation, the metadata view an object holds -/
+
+/-- let the judge's copy of the cluster see the requests of an operation (commits, produce counters, consumed scripts) -/
+def evolve (c : Cluster) (op : OpRec) : Cluster :=
+  op.evs.foldl (fun c e => match e with
+    | .req h f _ => match Spec.parseFrame f with
+      | some r => (handle c h r).1
+      | none => c
+    | _ => c) c
+
+/-- the structured replies the broker gave during an operation (ground truth), in contact order, and the cluster afterwards -/
+def truthBodies (c : Cluster) (op : OpRec) : Cluster × List (Bytes × Request × RespBody) :=
+  op.evs.foldl (fun (acc : Cluster × List (Bytes × Request × RespBody)) e => match e with
+    | .req h f _ => match Spec.parseFrame f with
+      | some r =>
+        let (c', b) := handleBody acc.1 h r
+        match b with
+        | some b => (c', acc.2 ++ [(h, r, b)])
+        | none => (c', acc.2)
+      | none => acc
+    | _ => acc) (c, [])
+
+def hostOf (b : BrokerMeta) : Bytes := b.host ++ strBytes ":" ++ strBytes (toString b.port)
+
+
+structure J06 where
+  cluster : Cluster := {}
+  /-- specification view: node id ↦ latest advertised address -/
+  hosts : List (Int × Bytes) := []
+  /-- topic ↦ leader node id per partition, from the latest response mentioning the topic -/
+  topics : List (Bytes × List Int) := []
+  bootstrap : List Bytes := []
+  out : List String := []
+
+def J06.hostOfNode (s : J06) (n : Int) : Option Bytes := (s.hosts.find? (·.1 == n)).map (·.2)
+
+def J06.view (s : J06) : String :=
+  let ts := sortBy (fun (a b : Bytes × List Int) => bytesLt a.1 b.1) s.topics
+  "ok" ++ String.join (ts.map fun (tp : Bytes × List Int) =>
+    " " ++ toHexTok tp.1 ++ "=" ++ joinWith "," ((List.range tp.2.length).zip tp.2 |>.map fun (x : Nat × Int) =>
+      match s.hostOfNode x.2 with
+      | some h => s!"{x.1}:{x.2}@{toHexTok h}"
+      | none => s!"{x.1}:~"))
+
+/-- merge one metadata response into the view -/
+def J06.merge (s : J06) (brokers : List BrokerMeta) (tms : List TopicMeta) : J06 :=
+  let hosts := brokers.foldl (fun (m : List (Int × Bytes)) (b : BrokerMeta) => (m.filter fun (x : Int × Bytes) => x.1 != b.nodeId) ++ [(b.nodeId, hostOf b)]) s.hosts
+  let topics := tms.foldl (fun (m : List (Bytes × List Int)) (t : TopicMeta) =>
+    -- partition ids of a well-formed response are 0..n-1 in some order: place each leader at its id
+    let n := t.parts.length
+    let leaders : List Int := (List.range n).map fun (i : Nat) =>
+      match t.parts.reverse.find? (fun (p : PartMeta) => p.id == (i : Int)) with
+      | some p => p.leader
+      | none => -1
+    (m.filter fun (x : Bytes × List Int) => x.1 != t.name) ++ [(t.name, leaders)]) s.topics
+  { s with hosts := hosts, topics := topics }
+
+/-- the address the view resolves a partition's leader to -/
+def J06.leaderHost (s : J06) (t : Bytes) (p : Int) : Option Bytes :=
+  ((s.topics.find? (fun (y : Bytes × List Int) => y.1 == t)).bind fun (y : Bytes × List Int) =>
+    if p < 0 then none else y.2[p.toNat]?).bind s.hostOfNode
+
+/-- the metadata views held by the scenario's objects (`c` the client, `k` the consumer's client, `p` the producer's),
+    followed over one operation: C06's specification of a view - the merge of the metadata replies received since the last
+    reset - moved along when a client is handed to a builder or taken back -/
+def trackViews (views : List (String × J06)) (op : OpRec) (bodies : List (Bytes × Request × RespBody)) : List (String × J06) :=
+  let get (k : String) : J06 := ((views.find? (fun (x : String × J06) => x.1 == k)).map (fun (x : String × J06) => x.2)).getD {}
+  let set (k : String) (v : J06) : List (String × J06) := (views.filter fun (x : String × J06) => x.1 != k) ++ [(k, v)]
+  let okRes := !op.result.startsWith "err" && op.result != "panic" && op.result != "noobj"
+  let cleared (v : J06) : J06 := { v with hosts := [], topics := [] }
+  let mergeAll (v : J06) : J06 := bodies.foldl (fun (v : J06) (x : Bytes × Request × RespBody) => match x.2.2 with
+    | RespBody.metadata bs ts => v.merge bs ts
+    | _ => v) v
+  match op.toks with
+  | ["client_new", _] => set "c" {}
+  | ["client_new"] => set "c" {}
+  | [tgt, "reset_metadata"] => set tgt (cleared (get tgt))
+  | [tgt, "load_metadata_all"] => set tgt (if okRes then mergeAll (cleared (get tgt)) else cleared (get tgt))
+  | tgt :: "load_metadata" :: _ => if okRes then set tgt (mergeAll (get tgt)) else views
+  | "producer_create" :: from_ :: _ =>
+    if op.result == "noobj" then views
+    else if from_ == "client" then (if okRes then set "p" (get "c") else views)
+    else if okRes then set "p" (mergeAll {}) else views
+  | "consumer_create" :: from_ :: _ =>
+    if op.result == "noobj" then views
+    else if from_ == "client" then (if okRes then set "k" (get "c") else views)
+    else if okRes then set "k" (mergeAll {}) else views
+  | ["producer_into_client"] => if okRes then set "c" (get "p") else views
+  | ["consumer_into_client"] => if okRes then set "c" (get "k") else views
+  | _ => views
+
 /-! ### C12 -/
 
 /-- the plain messages of a produced partition set, a single compressed wrapper opened with the independent decompressors -/
@@ -238,9 +329,14 @@ def reqFrames (op : OpRec) : List (Bytes × Bytes) :=
 def sortFP (ps : List FetchPart) : List FetchPart := sortBy (fun a b => a.partition < b.partition) ps
 
 def judgeC09 (ops : List OpRec) : List String :=
-  let s := ops.foldl (fun (s : JSt) op =>
+  let r := ops.foldl (fun (acc : JSt × List (String × J06)) op =>
+    let s := acc.1
+    let views := acc.2
     let s := { s with cluster := applySetup s.cluster op.setup }
     let s := trackSettings s op
+    let truth := (truthBodies s.cluster op).2
+    -- "led by the addressed broker" is what the calling object's loaded metadata says (C06's view of it)
+    let view : J06 := ((views.find? (fun (x : String × J06) => x.1 == (op.toks.headD ""))).map (fun (x : String × J06) => x.2)).getD {}
     let frames := reqFrames op
     -- 1. every frame is complete and parses under the independent grammar, nothing left over
     let parsed := frames.map fun (h, f) => (h, f, Spec.parseFrame f)
@@ -267,16 +363,16 @@ def judgeC09 (ops : List OpRec) : List String :=
       | _ => false)
     let s := if tooLong ∧ !frames.isEmpty then viol s "C09-sent-despite-unencodable" op "a frame was sent although a string does not fit its length field" else s
     -- 4. the body states what was asked
-    match op.toks with
+    let s : JSt := match op.toks with
     | _ :: "fetch_messages" :: args =>
       match parseFetchArgs args with
       | none => s
       | some fas =>
         if tooLong then s else
         -- later duplicates of a (topic, partition) replace earlier ones
-        let dedup := fas.foldl (fun (m : List Model.FetchArg) a => (m.filter fun b => !(b.topic == a.topic && b.partition == a.partition)) ++ [a]) []
-        let want : List (Bytes × Bytes × FetchPart) := dedup.filterMap fun a =>
-          (leaderHost s.cluster a.topic a.partition).map fun h =>
+        let dedup := fas.foldl (fun (m : List Model.FetchArg) (a : Model.FetchArg) => (m.filter fun (b : Model.FetchArg) => !(b.topic == a.topic && b.partition == a.partition)) ++ [a]) []
+        let want : List (Bytes × Bytes × FetchPart) := dedup.filterMap fun (a : Model.FetchArg) =>
+          (view.leaderHost a.topic a.partition).map fun (h : Bytes) =>
             (h, a.topic, ⟨a.partition, a.offset, if a.maxBytes > 0 then a.maxBytes else s.fetchMaxBytes⟩)
         let got : List (Bytes × Bytes × FetchPart) := reqs.flatMap fun (h, r) => match r.body with
           | .fetch _ _ _ ts => ts.flatMap fun (t, ps) => ps.map fun p => (h, t, p)
@@ -284,7 +380,9 @@ def judgeC09 (ops : List OpRec) : List String :=
         let key (x : Bytes × Bytes × FetchPart) : String := s!"{toHexTok x.1}|{toHexTok x.2.1}|{x.2.2.partition}|{x.2.2.offset}|{x.2.2.maxBytes}"
         let w := sortBy (· < ·) (want.map key)
         let g := sortBy (· < ·) (got.map key)
-        let s := if w == g then s else viol s "C09-fetch-body" op s!"fetch requests state {g}, asked (restricted to led partitions, by leader) {w}"
+        -- a call cut short on the wire has stated part of what was asked: whatever it did state must be right
+        let cut := op.evs.any (fun e => match e with | .io _ _ => true | .connect _ ok => !ok | _ => false)
+        let s := if w == g || (cut && g.all (fun x => w.contains x)) then s else viol s "C09-fetch-body" op s!"fetch requests state {g}, asked (restricted to led partitions, by leader) {w}"
         reqs.foldl (fun s (_, r) => match r.body with
           | .fetch rep mw mb _ =>
             if rep == -1 && mw == s.fetchMaxWait && mb == s.fetchMinBytes then s
@@ -296,7 +394,7 @@ def judgeC09 (ops : List OpRec) : List String :=
           let s := if r.header.apiKey == 2 && r.header.apiVersion == 0 && rep == -1 then s else viol s "C09-offsets-header" op "key/version/replica"
           ts.foldl (fun s (t, ps) => ps.foldl (fun s p =>
             let s := if some p.time == time.toInt? && p.maxOffsets == 1 then s else viol s "C09-offsets-body" op s!"time {p.time} max {p.maxOffsets}"
-            if leaderHost s.cluster t p.partition == some h then s else viol s "C09-offsets-route" op s!"{toHexTok t}/{p.partition} asked of {toHexTok h}") s) s
+            if view.leaderHost t p.partition == some h then s else viol s "C09-offsets-route" op s!"{toHexTok t}/{p.partition} asked of {toHexTok h}") s) s
         | _ => viol s "C09-wrong-api" op "fetch_offsets emitted another request") s
     | _ :: "list_offsets" :: time :: _ =>
       reqs.foldl (fun s (h, r) => match r.body with
@@ -304,7 +402,7 @@ def judgeC09 (ops : List OpRec) : List String :=
           let s := if r.header.apiKey == 2 && r.header.apiVersion == 1 && rep == -1 then s else viol s "C09-list-offsets-header" op "key/version/replica"
           ts.foldl (fun s (t, ps) => ps.foldl (fun s p =>
             let s := if some p.time == time.toInt? then s else viol s "C09-list-offsets-body" op s!"time {p.time}"
-            if leaderHost s.cluster t p.partition == some h then s else viol s "C09-list-offsets-route" op s!"{toHexTok t}/{p.partition} asked of {toHexTok h}") s) s
+            if view.leaderHost t p.partition == some h then s else viol s "C09-list-offsets-route" op s!"{toHexTok t}/{p.partition} asked of {toHexTok h}") s) s
         | _ => viol s "C09-wrong-api" op "list_offsets emitted another request") s
     | _ :: "produce" :: acks :: secs :: nanos :: args =>
       let to := match secs.toNat?, nanos.toNat? with
@@ -328,7 +426,8 @@ def judgeC09 (ops : List OpRec) : List String :=
           | .produce _ _ ts => ts.flatMap fun (tp : Bytes × List (Int × Bytes)) => tp.2.map fun (ps : Int × Bytes) =>
               s!"{toHexTok tp.1}|{ps.1}|{(openSet ps.2).map fun (m : Spec.Msg) => s!"{repr m.key}/{repr m.value}"}"
           | _ => []
-        if sortBy (· < ·) want == sortBy (· < ·) got then s
+        let cut := op.evs.any (fun e => match e with | .io _ _ => true | .connect _ ok => !ok | _ => false)
+        if sortBy (· < ·) want == sortBy (· < ·) got || (cut && got.all (fun x => want.contains x)) then s
         else viol s "C09-produce-content" op s!"the requests state {sortBy (· < ·) got}, asked for {sortBy (· < ·) want}"
     | _ :: "commit_offsets" :: g :: args =>
       match fromHex g, parseTPO args with
@@ -361,32 +460,11 @@ def judgeC09 (ops : List OpRec) : List String :=
       reqs.foldl (fun s (_, r) => match r.body with
         | .metadata names => if some names == ts.mapM fromHex then s else viol s "C09-metadata-body" op "topic list differs"
         | _ => viol s "C09-wrong-api" op "load_metadata emitted another request") s
-    | _ => s) ({} : JSt)
-  s.out
+    | _ => s
+    ({ s with cluster := evolve s.cluster op }, trackViews views op truth)) (({} : JSt), [])
+  r.1.out
 
 /-! ### C10 -/
-
-/-- let the judge's copy of the cluster see the requests of an operation (commits, produce counters, consumed scripts) -/
-def evolve (c : Cluster) (op : OpRec) : Cluster :=
-  op.evs.foldl (fun c e => match e with
-    | .req h f _ => match Spec.parseFrame f with
-      | some r => (handle c h r).1
-      | none => c
-    | _ => c) c
-
-/-- the structured replies the broker gave during an operation (ground truth), in contact order, and the cluster afterwards -/
-def truthBodies (c : Cluster) (op : OpRec) : Cluster × List (Bytes × Request × RespBody) :=
-  op.evs.foldl (fun (acc : Cluster × List (Bytes × Request × RespBody)) e => match e with
-    | .req h f _ => match Spec.parseFrame f with
-      | some r =>
-        let (c', b) := handleBody acc.1 h r
-        match b with
-        | some b => (c', acc.2 ++ [(h, r, b)])
-        | none => (c', acc.2)
-      | none => acc
-    | _ => acc) (c, [])
-
-def hostOf (b : BrokerMeta) : Bytes := b.host ++ strBytes ":" ++ strBytes (toString b.port)
 
 /-- what `topics()` must show after a full metadata load of this cluster -/
 def expectTopics (c : Cluster) : String :=
@@ -1081,72 +1159,6 @@ def judgeC19 (ops : List OpRec) : List String :=
 
 /-! ### C05 -/
 
-structure J06 where
-  cluster : Cluster := {}
-  /-- specification view: node id ↦ latest advertised address -/
-  hosts : List (Int × Bytes) := []
-  /-- topic ↦ leader node id per partition, from the latest response mentioning the topic -/
-  topics : List (Bytes × List Int) := []
-  bootstrap : List Bytes := []
-  out : List String := []
-
-def J06.hostOfNode (s : J06) (n : Int) : Option Bytes := (s.hosts.find? (·.1 == n)).map (·.2)
-
-def J06.view (s : J06) : String :=
-  let ts := sortBy (fun (a b : Bytes × List Int) => bytesLt a.1 b.1) s.topics
-  "ok" ++ String.join (ts.map fun (tp : Bytes × List Int) =>
-    " " ++ toHexTok tp.1 ++ "=" ++ joinWith "," ((List.range tp.2.length).zip tp.2 |>.map fun (x : Nat × Int) =>
-      match s.hostOfNode x.2 with
-      | some h => s!"{x.1}:{x.2}@{toHexTok h}"
-      | none => s!"{x.1}:~"))
-
-/-- merge one metadata response into the view -/
-def J06.merge (s : J06) (brokers : List BrokerMeta) (tms : List TopicMeta) : J06 :=
-  let hosts := brokers.foldl (fun (m : List (Int × Bytes)) (b : BrokerMeta) => (m.filter fun (x : Int × Bytes) => x.1 != b.nodeId) ++ [(b.nodeId, hostOf b)]) s.hosts
-  let topics := tms.foldl (fun (m : List (Bytes × List Int)) (t : TopicMeta) =>
-    -- partition ids of a well-formed response are 0..n-1 in some order: place each leader at its id
-    let n := t.parts.length
-    let leaders : List Int := (List.range n).map fun (i : Nat) =>
-      match t.parts.reverse.find? (fun (p : PartMeta) => p.id == (i : Int)) with
-      | some p => p.leader
-      | none => -1
-    (m.filter fun (x : Bytes × List Int) => x.1 != t.name) ++ [(t.name, leaders)]) s.topics
-  { s with hosts := hosts, topics := topics }
-
-/-- the address the view resolves a partition's leader to -/
-def J06.leaderHost (s : J06) (t : Bytes) (p : Int) : Option Bytes :=
-  ((s.topics.find? (fun (y : Bytes × List Int) => y.1 == t)).bind fun (y : Bytes × List Int) =>
-    if p < 0 then none else y.2[p.toNat]?).bind s.hostOfNode
-
-/-- the metadata views held by the scenario's objects (`c` the client, `k` the consumer's client, `p` the producer's),
-    followed over one operation: C06's specification of a view - the merge of the metadata replies received since the last
-    reset - moved along when a client is handed to a builder or taken back -/
-def trackViews (views : List (String × J06)) (op : OpRec) (bodies : List (Bytes × Request × RespBody)) : List (String × J06) :=
-  let get (k : String) : J06 := ((views.find? (fun (x : String × J06) => x.1 == k)).map (fun (x : String × J06) => x.2)).getD {}
-  let set (k : String) (v : J06) : List (String × J06) := (views.filter fun (x : String × J06) => x.1 != k) ++ [(k, v)]
-  let okRes := !op.result.startsWith "err" && op.result != "panic" && op.result != "noobj"
-  let cleared (v : J06) : J06 := { v with hosts := [], topics := [] }
-  let mergeAll (v : J06) : J06 := bodies.foldl (fun (v : J06) (x : Bytes × Request × RespBody) => match x.2.2 with
-    | RespBody.metadata bs ts => v.merge bs ts
-    | _ => v) v
-  match op.toks with
-  | ["client_new", _] => set "c" {}
-  | ["client_new"] => set "c" {}
-  | [tgt, "reset_metadata"] => set tgt (cleared (get tgt))
-  | [tgt, "load_metadata_all"] => set tgt (if okRes then mergeAll (cleared (get tgt)) else cleared (get tgt))
-  | tgt :: "load_metadata" :: _ => if okRes then set tgt (mergeAll (get tgt)) else views
-  | "producer_create" :: from_ :: _ =>
-    if op.result == "noobj" then views
-    else if from_ == "client" then (if okRes then set "p" (get "c") else views)
-    else if okRes then set "p" (mergeAll {}) else views
-  | "consumer_create" :: from_ :: _ =>
-    if op.result == "noobj" then views
-    else if from_ == "client" then (if okRes then set "k" (get "c") else views)
-    else if okRes then set "k" (mergeAll {}) else views
-  | ["producer_into_client"] => if okRes then set "c" (get "p") else views
-  | ["consumer_into_client"] => if okRes then set "c" (get "k") else views
-  | _ => views
-
 def kvStr (k v : Option Bytes) : String := s!"{Driver.optTok k}:{Driver.optTok v}"
 
 def judgeC05 (ops : List OpRec) : List String :=
@@ -1254,7 +1266,9 @@ def judgeC06 (ops : List OpRec) : List String :=
     match op.toks with
     | ["client_new", hs] => { s with bootstrap := (hostsOf hs).getD [], hosts := [], topics := [] }
     | [_, "reset_metadata"] => { s with hosts := [], topics := [] }
-    | _ :: load :: _ =>
+    | tgt :: load :: _ =>
+      -- the view followed here is the one of the scenario's client object `c`
+      if tgt != "c" then s else
       if load == "load_metadata_all" || load == "load_metadata" then
         let s := if load == "load_metadata_all" then { s with hosts := [], topics := [] } else s
         -- bootstrap: the first host that can be reached answers; no-host-reachable only if none can
